@@ -11,7 +11,7 @@ NOTE_COMMON = ("Trusted base: TLC 1.8.0 and the CommunityModules Json/IOUtils re
 CLAIMED = {
  "C03": dict(cat="translation_validation", ref="6 C03",
    tech="TLA+ abstract machine (CelEval) model-checked against a declarative denotation (CelDen) with TLC; trace validation of real executions and replay of TLC-generated programs",
-   text="Every explored program's value / error class / host-call log produced by cel-rust must be a behaviour of the TLA+ evaluator specification, which TLC has checked against an independent declarative semantics on all programs up to 2 operators over boundary leaves. Exhaustive for the generated small programs, seeded random (depth<=6) beyond."),
+   text="Every explored program's value / error class / host-call log produced by cel-rust must be a behaviour of the TLA+ evaluator specification, which TLC has checked against an independent declarative semantics on all programs up to 2 operators over boundary leaves. Exhaustive for the generated small programs, seeded random (depth<=6) beyond, preceded by directed complete tables (aliased NaN operands, substring search over all word pairs of a small scope, int/uint/double ordering around small integers, map-literal evaluation order). `matches` is specified for a fragment of the regex syntax (CelRegex, checked by TLC against an independent denotational reading) and cel-rust's answers for every token string up to 3/4 tokens are validated."),
  "C06": dict(cat="model_checking", ref="6 C06",
    tech="TLC model checking of the CelEval abstract machine over all small &&/||/?: programs (invariants OnlyNeeded, ResultMatchesDen), every generated program replayed into cel-rust, plus trace validation of random nestings",
    text="TLC explores every program with <=2 (quick) / <=3 (thorough) logical operators over constant, erroring and logging leaves, also inside macro bodies; at every machine step the host calls made are a prefix of those the declarative semantics needs. Each generated source text is executed by cel-rust and its log/outcome validated against the spec's own tree, so parser and evaluator are judged together."),
@@ -20,7 +20,7 @@ CLAIMED = {
    text="All programs with <=3 call/operator nodes over every call shape (global, receiver, list, map entry, operator) are model-checked: the ordered host-call log equals the denotation's (each operand once, in source order). cel-rust's recorded log must equal it for each generated program and for random programs of depth <=8 in which most nodes are wrapped by the logging function."),
  "C10": dict(cat="model_checking", ref="6 C10",
    tech="TLC: operational macro expansion (comprehension machine) = declarative fold (CelDen) over all lists up to a bound; generated programs replayed; trace validation of random macro programs",
-   text="For all five macros and every context list over a small alphabet (length <=2 quick, <=5 thorough) TLC checks that running the parser-style expansion on the abstract machine equals the defining fold (value, error, visited elements, host log). Every (list, program) pair is then executed by cel-rust and validated."),
+   text="For all five macros and every context list over a small alphabet (length <=2 quick, <=5 thorough) TLC checks that running the parser-style expansion on the abstract machine equals the defining fold (value, error, visited elements, host log). Every (list, program) pair is then executed by cel-rust and validated; further configurations cover map ranges, quantifiers whose bodies fail or log (first error aborts, later elements unvisited) and, in the thorough tier, macros chained on macros. Directed tables of nested and chained macros precede the random programs."),
  "C08": dict(cat="model_checking", ref="6 C08",
    tech="TLC: Num64 checked-arithmetic definitions exhaustively compared with native arithmetic at width 5/6 and algebraic laws on a 64-bit boundary set; trace validation (CelOpTrace) of every boundary pair executed by cel-rust",
    text="The definition 'exact result if representable, else overflow/div0' is model-checked exhaustively at small width and on all pairs of a 64-bit boundary set ((a/b)*b+a%b=a, sign of remainder, commutativity, never out of range). cel-rust's outcome for every ordered pair of ~55 i64 and ~30 u64 boundary values under + - * / % and unary minus -- as literals, as variables and through the host-side operator impls -- plus mixed kinds and random pairs must equal the definition."),
